@@ -225,6 +225,12 @@ pub enum HOp {
     Clear,
     RoundTrip,
     CloneReplace,
+    /// insert into a named set through a `borrow_with` guard, then drop the guard
+    GuardInsert { list: usize, name: String, val: usize },
+    /// clear through a guard, then drop the guard
+    GuardClear,
+    /// deserialise the context's own JSON through a guard over a cleared context
+    GuardRoundTrip,
 }
 
 fn hist_values(t: &Ty) -> Vec<V> {
@@ -253,6 +259,13 @@ fn hist_ops(u: &Uni) -> Vec<HOp> {
         }
     }
     v.extend([HOp::SetI(Some(1)), HOp::SetI(Some(2)), HOp::SetI(None), HOp::Clear, HOp::RoundTrip, HOp::CloneReplace]);
+    // writes through a temporary borrow reach the original
+    for (idx, (t, k)) in u.lists.iter().enumerate() {
+        if *k == ListKind::Set {
+            v.push(HOp::GuardInsert { list: idx, name: "a".to_string(), val: hist_values(t).len() - 1 });
+        }
+    }
+    v.extend([HOp::GuardClear, HOp::GuardRoundTrip]);
     v
 }
 
@@ -325,6 +338,43 @@ fn hstep(w: &HWorld, ctx: ExecutionContext<'static>, st: &mut HState, op: &HOp) 
                 return Err("context after a serialisation round trip is not equal to the original".into());
             }
             Ok(fresh)
+        }
+        HOp::GuardInsert { list, name, val } => {
+            let (t, _) = &w.uni.lists[*list];
+            let v = hist_values(t)[*val].clone();
+            st.sets.entry(*list).or_default().entry(name.clone()).or_default().insert(v.clone());
+            let l = w.scheme.get_list(&t.to_engine()).ok_or("list not registered")?;
+            {
+                let mut g = ctx.borrow_with(7u8);
+                let m = g.get_list_matcher_mut(l);
+                let sm = (m.as_any_mut() as &mut dyn std::any::Any).downcast_mut::<SetMatcher>().ok_or("matcher for this type is not the one registered for it")?;
+                sm.sets.entry(name.clone()).or_default().insert(v);
+            }
+            Ok(ctx)
+        }
+        HOp::GuardClear => {
+            st.sets.clear();
+            st.i = None;
+            {
+                let mut g = ctx.borrow_with(7u8);
+                g.clear();
+                g.set_field_value(w.scheme.get_field("s").unwrap(), &b"a"[..]).map_err(|e| e.to_string())?;
+                g.set_field_value(w.scheme.get_field("ip").unwrap(), "::1".parse::<std::net::IpAddr>().unwrap()).map_err(|e| e.to_string())?;
+            }
+            Ok(ctx)
+        }
+        HOp::GuardRoundTrip => {
+            let text: &'static str = Box::leak(serde_json::to_string(&ctx).map_err(|e| e.to_string())?.into_boxed_str());
+            let before = ctx.clone_with(());
+            ctx.clear();
+            {
+                let mut g = ctx.borrow_with(7u8);
+                (&mut *g).deserialize(&mut serde_json::Deserializer::from_str(text)).map_err(|e| format!("own JSON rejected through a guard: {e}"))?;
+            }
+            if ctx != before {
+                return Err("context refilled from its own JSON through a guard is not equal to the original".into());
+            }
+            Ok(ctx)
         }
         HOp::CloneReplace => {
             let c = ctx.clone_with(());
